@@ -8,3 +8,6 @@ import Smoke.ScanProof
 import Smoke.Prec
 import Smoke.Tree
 import Smoke.ScanNoPanic
+import Smoke.ExpParse
+import Smoke.CodeScan
+import Smoke.Eval
